@@ -18,7 +18,7 @@ type LightFamily struct {
 	Nmax    int
 	UndoBud int
 	Prop    string // C07 | C08 | C11: which oracle clauses are reported
-	RemMode string // "" = every subset of the additions; "all"; "none"
+	RemMode string // "" = every subset of the additions (ascending index lists); "desc" = the same in descending order; "all"; "none"
 	Collect string // when set, violations of this property are collected instead of Prop's
 	// Base > 0: the client starts from bare roots of an accumulator that already holds Base
 	// leaves (opaque, undeletable trees with synthetic root hashes): rows up to 63.
@@ -100,6 +100,12 @@ func (f *LightFamily) Ops(n *Node) []Op {
 				for _, rem := range subsets(idx, true) {
 					if rem == nil {
 						rem = []int{}
+					}
+					if f.RemMode == "desc" {
+						// the same subsets, each listed in descending order
+						for i, j := 0, len(rem)-1; i < j; i, j = i+1, j-1 {
+							rem[i], rem[j] = rem[j], rem[i]
+						}
 					}
 					ops = append(ops, Op{Kind: "block", Dels: dels, Adds: adds, Rem: rem})
 				}
@@ -512,6 +518,10 @@ func init() {
 		c.Cov.Rule = "explicit-state BFS over light-client histories: state (N, alive, cached); transition = block(deletion subset of the live leaves, addition count with N<=Nmax, every subset of the additions to remember), executed as Stump.Update + Proof.Update on a client holding only stump, proof and hashes, starting from the empty proof; after every transition the held (hash,position) pairs, the canonical proof hashes, acceptance by Verify and equality with a full Pollard prover's proof are compared with the reference forest; non-trivial = distinct concrete client state with a dead leaf"
 		c.Cov.Bound["Nmax"] = fam.Nmax
 		BFS(c, fam, 0)
+		// the remember indexes of every block listed in descending instead of ascending order
+		nd := pick(c, 5, 6)
+		c.Cov.Bound["descending_remember_lists.Nmax"] = nd
+		BFS(c, &LightFamily{Nmax: nd, Prop: "C07", RemMode: "desc"}, 0)
 		lightBases(c, "C07", pick(c, 3, 4), 0)
 		lightMedium(c, "C07", false)
 	}
